@@ -43,10 +43,12 @@ func initRig(tier string) {
 		if err == nil {
 			return
 		}
+		theRig = nil
 	}
-	fmt.Fprintln(os.Stderr, "rig:", err)
-	os.Exit(3)
+	rigErr = "the black-box rig (proxy, agent, backend processes) did not come up: " + err.Error()
 }
+
+var rigErr string
 
 var hopByHop = map[string]bool{"Connection": true, "Keep-Alive": true, "Proxy-Authenticate": true, "Proxy-Authorization": true, "Te": true, "Trailer": true, "Transfer-Encoding": true, "Upgrade": true, "Proxy-Connection": true}
 
@@ -168,6 +170,9 @@ func clipS(s string) string {
 }
 
 func evalC02(tier string, i int) vx.Exec {
+	if theRig == nil {
+		return vx.Exec{Infra: rigErr}
+	}
 	c := c02Cases[i]
 	id := fmt.Sprintf("c%d", i)
 	var x vx.Exec
@@ -349,6 +354,9 @@ func (c c03Case) String() string {
 }
 
 func evalC03(tier string, i int) vx.Exec {
+	if theRig == nil {
+		return vx.Exec{Infra: rigErr}
+	}
 	c := c03Cases[i]
 	id := fmt.Sprintf("r%d", i)
 	var x vx.Exec
